@@ -86,6 +86,11 @@ class Center:
         else:
             res = self.offset
 
+        if hasattr(res, "form"):
+            # The offset is made of cartesian coordinates, whichever the form
+            # in which the state vector is held
+            res = res.copy(form="cartesian")
+
         return self.orientation.convert_to(date, orientation) @ res
 
 
